@@ -227,7 +227,7 @@ func (g *Gen) allowedArr(st *State, arr string) string {
 	return or(alts...)
 }
 
-func (g *Gen) hasFrame() bool { return g.spec != nil && g.spec.HasMod && !g.inFrameEval }
+func (g *Gen) hasFrame() bool { return g.spec != nil && g.spec.HasMod && !g.spec.ModAll && !g.inFrameEval }
 
 // frameCheckStore is called for every heap store.
 func (g *Gen) frameCheckStore(st *State, p *Val, pos token.Pos, text string) {
@@ -305,6 +305,10 @@ func (g *Gen) frameCheckCall(st *State, pre *State, c *ssa.Call, sp *FuncSpec, e
 	}
 	g.inFrameEval = true
 	defer func() { g.inFrameEval = false }()
+	if sp.ModAll {
+		g.oblige("frame", fmt.Sprintf("call %s modifies everything", callee), c.Pos(), st.reach, "false")
+		return
+	}
 	penv := *env
 	penv.cur, penv.old = pre, pre
 	for _, l := range g.declaredLocs(&penv, sp) {
